@@ -168,3 +168,112 @@ func c05MixedTypes(e *c05Env) {
 		}
 	})
 }
+
+// a foreign implementation of SetDef (a wrapper written out method by method around a MapSet) as the OPERAND of the
+// MapSet operations: the laws are stated for any operand that implements the interface
+type c05Foreign struct{ in fpgo.SetDef[int, int] }
+
+func (f *c05Foreign) MapKey(fn fpgo.TransformerFunctor[int, int]) fpgo.SetDef[int, int] {
+	return &c05Foreign{f.in.MapKey(fn)}
+}
+func (f *c05Foreign) MapValue(fn fpgo.TransformerFunctor[int, int]) fpgo.SetDef[int, int] {
+	return &c05Foreign{f.in.MapValue(fn)}
+}
+func (f *c05Foreign) ContainsKey(x int) bool                       { return f.in.ContainsKey(x) }
+func (f *c05Foreign) ContainsValue(x int) bool                     { return f.in.ContainsValue(x) }
+func (f *c05Foreign) IsSubsetByKey(o fpgo.SetDef[int, int]) bool   { return f.in.IsSubsetByKey(o) }
+func (f *c05Foreign) IsSupersetByKey(o fpgo.SetDef[int, int]) bool { return f.in.IsSupersetByKey(o) }
+func (f *c05Foreign) Add(x ...int) fpgo.SetDef[int, int]           { return &c05Foreign{f.in.Add(x...)} }
+func (f *c05Foreign) RemoveKeys(x ...int) fpgo.SetDef[int, int] {
+	return &c05Foreign{f.in.RemoveKeys(x...)}
+}
+func (f *c05Foreign) RemoveValues(x ...int) fpgo.SetDef[int, int] {
+	return &c05Foreign{f.in.RemoveValues(x...)}
+}
+func (f *c05Foreign) Get(k int) int                { return f.in.Get(k) }
+func (f *c05Foreign) Set(k int, v int)             { f.in.Set(k, v) }
+func (f *c05Foreign) Clone() fpgo.SetDef[int, int] { return &c05Foreign{f.in.Clone()} }
+func (f *c05Foreign) Union(o fpgo.SetDef[int, int]) fpgo.SetDef[int, int] {
+	return &c05Foreign{f.in.Union(o)}
+}
+func (f *c05Foreign) Intersection(o fpgo.SetDef[int, int]) fpgo.SetDef[int, int] {
+	return &c05Foreign{f.in.Intersection(o)}
+}
+func (f *c05Foreign) Minus(o fpgo.SetDef[int, int]) fpgo.SetDef[int, int] {
+	return &c05Foreign{f.in.Minus(o)}
+}
+func (f *c05Foreign) Size() int                           { return f.in.Size() }
+func (f *c05Foreign) Keys() []int                         { return f.in.Keys() }
+func (f *c05Foreign) Values() []int                       { return f.in.Values() }
+func (f *c05Foreign) AsMap() map[int]int                  { return f.in.AsMap() }
+func (f *c05Foreign) AsMapSet() *fpgo.MapSetDef[int, int] { return f.in.AsMapSet() }
+
+func c05ForeignOperands(e *c05Env, lists [][]int) {
+	n := len(lists)
+	parallelFor(n*n, func(w, pi int) {
+		a, b := lists[pi/n], lists[pi%n]
+		if len(a) == 0 || len(b) == 0 {
+			return
+		}
+		e.law("law:MapSet with a foreign SetDef operand", []any{a, b}, true, func() string {
+			ma := fpgo.SetFrom[int, int](a...)
+			fb := &c05Foreign{fpgo.SetFrom[int, int](b...)}
+			ru, ri, rm := ma.Union(fb).Keys(), ma.Intersection(fb).Keys(), ma.Minus(fb).Keys()
+			for x := -1; x <= 3; x++ {
+				if has(ru, x) != (has(a, x) || has(b, x)) || has(ri, x) != (has(a, x) && has(b, x)) || has(rm, x) != (has(a, x) && !has(b, x)) {
+					return fmt.Sprintf("operand is another implementation of SetDef: membership of %d wrong: union %v intersection %v minus %v", x, ru, ri, rm)
+				}
+			}
+			want := true
+			for _, x := range a {
+				if !has(b, x) {
+					want = false
+				}
+			}
+			if ma.IsSubsetByKey(fb) != want {
+				return fmt.Sprintf("IsSubsetByKey(foreign operand) = %v, want %v", !want, want)
+			}
+			if !eqMultiset(fpgo.Distinct(a...), ma.Keys()) {
+				return "receiver changed"
+			}
+			return ""
+		})
+	})
+}
+
+// many operands in one call of the n-ary slice functions (beyond any word size)
+func c05ManyOperands(e *c05Env) {
+	for _, n := range []int{3, 8, 31, 32, 33, 63, 64, 65, 66, 67, 100, 129, 300} {
+		n := n
+		for _, missAt := range []int{1, n / 2, n - 2, n - 1} {
+			if missAt < 1 || missAt >= n {
+				continue
+			}
+			missAt := missAt
+			e.law("law:Intersection/Union/Difference(many operands)", []any{n, missAt}, true, func() string {
+				ops := make([][]int, n)
+				iops := make([][]interface{}, n)
+				for i := range ops {
+					ops[i] = []int{1, 2, 3, 100 + i}
+					if i == missAt {
+						ops[i] = []int{1, 3, 100 + i} // 2 is missing from exactly one operand
+					}
+					iops[i] = box(ops[i])
+				}
+				got := fpgo.Intersection(ops...)
+				if !eqMultiset(got, []int{1, 3}) {
+					return fmt.Sprintf("Intersection of %d operands, 2 missing only from operand #%d: %v, want [1 3]", n, missAt, got)
+				}
+				gi, _ := unbox(fpgo.IntersectionForInterface(iops...))
+				if !eqMultiset(gi, []int{1, 3}) {
+					return fmt.Sprintf("IntersectionForInterface of %d operands, 2 missing only from operand #%d: %v, want [1 3]", n, missAt, gi)
+				}
+				u := fpgo.Union(ops...)
+				if len(u) != 3+n || !noDup(u) {
+					return fmt.Sprintf("Union of %d operands has %d elements (duplicates: %v), want %d distinct", n, len(u), !noDup(u), 3+n)
+				}
+				return ""
+			})
+		}
+	}
+}
